@@ -3,6 +3,7 @@ package main
 // C15 — key spaces (R15b, R15c), mangling (R15d), key validation (R15e).
 
 import (
+	"sort"
 	"go/types"
 	"fmt"
 	"go/ast"
@@ -45,12 +46,28 @@ func keyspaceRules(c *Ctx) {
 		R.Check(n > 0, "R15b", c.Cfg+"get:lookup-found", "", "the lookup call was analysed", "not found")
 	}
 
-	// helpers whose cache accesses are judged in the context of their callers
-	helpers := []string{"server.(*grpcServer).getBlobData", "server.(*grpcServer).getBlobResponse", "server.(*grpcServer).fetchItem",
-		"server.(*httpCache).handleGetValidAC", "server.(*httpCache).handleContainsValidAC"}
+	// helpers whose cache accesses are judged in the context of their callers: every unexported
+	// function or method of package server that is called from (non-test) code of the package.
+	// Extracting part of a handler into a helper therefore moves no obligation out of sight.
+	var helpers []string
 	isHelper := map[string]bool{}
-	for _, h := range helpers {
-		isHelper[h] = true
+	{
+		srvFuncs := map[string]*FuncInfo{}
+		for _, fi := range c.P.FuncsInPkg("/server") {
+			if !strings.HasSuffix(c.P.Fset.Position(fi.Decl.Pos()).Filename, "_test.go") {
+				srvFuncs[fi.Key] = fi
+			}
+		}
+		for _, fi := range srvFuncs {
+			for _, call := range callsIn(fi.Decl.Body, true) {
+				k := calleeKey(fi.Pkg.TypesInfo, call)
+				if h := srvFuncs[k]; h != nil && h != fi && !ast.IsExported(h.Decl.Name.Name) && !isHelper[k] {
+					isHelper[k] = true
+					helpers = append(helpers, k)
+				}
+			}
+		}
+		sort.Strings(helpers)
 	}
 	type site struct {
 		fn   *FuncInfo
@@ -68,9 +85,6 @@ func keyspaceRules(c *Ctx) {
 			k := calleeKey(fi.Pkg.TypesInfo, call)
 			if isHelper[k] {
 				callerOf[k]++
-				if !isHelper[fi.Key] {
-					roots[fi.Key] = true
-				}
 			}
 			if strings.HasPrefix(k, "disk.(Cache).") {
 				op := strings.TrimPrefix(k, "disk.(Cache).")
@@ -84,10 +98,109 @@ func keyspaceRules(c *Ctx) {
 			}
 		}
 	}
-	for _, h := range helpers {
-		R.Check(callerOf[h] > 0, "R15e", c.Cfg+"helper-has-callers:"+h, "", "helper "+h+" is analysed in the context of its callers", "helper has no caller in package server: its cache accesses are not judged")
+	_ = callerOf
+	// roots: the non-helper functions from which a cache access is reachable through helpers
+	{
+		hasSite := map[string]bool{}
+		for _, st := range sites {
+			hasSite[st.fn.Key] = true
+		}
+		callees := map[string][]string{}
+		for _, fi := range c.P.FuncsInPkg("/server") {
+			if strings.HasSuffix(c.P.Fset.Position(fi.Decl.Pos()).Filename, "_test.go") {
+				continue
+			}
+			for _, call := range callsIn(fi.Decl.Body, true) {
+				if k := calleeKey(fi.Pkg.TypesInfo, call); isHelper[k] {
+					callees[fi.Key] = append(callees[fi.Key], k)
+				}
+			}
+		}
+		var reaches func(k string, seen map[string]bool) bool
+		reaches = func(k string, seen map[string]bool) bool {
+			if hasSite[k] {
+				return true
+			}
+			if seen[k] {
+				return false
+			}
+			seen[k] = true
+			for _, c2 := range callees[k] {
+				if reaches(c2, seen) {
+					return true
+				}
+			}
+			return false
+		}
+		for _, fi := range c.P.FuncsInPkg("/server") {
+			if strings.HasSuffix(c.P.Fset.Position(fi.Decl.Pos()).Filename, "_test.go") || isHelper[fi.Key] {
+				continue
+			}
+			if reaches(fi.Key, map[string]bool{}) {
+				roots[fi.Key] = true
+			}
+		}
 	}
-	// R15c
+	// R15c: the kind argument is a constant, or the kind parseRequestURL derived from the request's
+	// URL path - followed through the parameters of helpers to every caller
+	var kindOK func(fn *FuncInfo, e ast.Expr, depth int) (bool, string)
+	kindOK = func(fn *FuncInfo, e ast.Expr, depth int) (bool, string) {
+		info := fn.Pkg.TypesInfo
+		if tv, ok := info.Types[e]; ok && tv.Value != nil {
+			// only the CAS and the validated action cache are addressed by a constant; the raw
+			// key space is chosen by parseRequestURL alone
+			v := tv.Value.ExactString()
+			return v == constOfKind(c, "CAS") || v == constOfKind(c, "AC"), "constant key space " + exprStr(e) + " (only cache.CAS and cache.AC are addressed directly)"
+		}
+		o := identObj(info, e)
+		if o == nil || depth > 3 {
+			return false, "kind argument is " + exprStr(e)
+		}
+		// a parameter of a helper: every caller must pass an acceptable kind
+		for i := 0; ; i++ {
+			po := paramObj(fn, i)
+			if po == nil {
+				break
+			}
+			if po != o {
+				continue
+			}
+			if !isHelper[fn.Key] {
+				return false, "kind is a parameter of " + fn.Key + ", which is not a helper with known callers"
+			}
+			n := 0
+			for _, g := range c.P.FuncsInPkg("/server") {
+				if strings.HasSuffix(c.P.Fset.Position(g.Decl.Pos()).Filename, "_test.go") {
+					continue
+				}
+				for _, call := range callsIn(g.Decl.Body, true) {
+					if calleeKey(g.Pkg.TypesInfo, call) == fn.Key && i < len(call.Args) {
+						n++
+						if ok, why := kindOK(g, call.Args[i], depth+1); !ok {
+							return false, why + " (passed by " + g.Key + ")"
+						}
+					}
+				}
+			}
+			return n > 0, "no caller found"
+		}
+		// a local defined by parseRequestURL(<request>.URL.Path, <receiver>.validateAC)
+		found, good := false, false
+		ast.Inspect(fn.Decl.Body, func(n ast.Node) bool {
+			if as, k2 := n.(*ast.AssignStmt); k2 && len(as.Rhs) == 1 && len(as.Lhs) == 4 {
+				if call, k3 := as.Rhs[0].(*ast.CallExpr); k3 && calleeKey(info, call) == "server.parseRequestURL" && identObj(info, as.Lhs[0]) == o {
+					found = true
+					a0 := strings.TrimPrefix(exprStr(call.Args[0]), exprStr(rootOfSel(call.Args[0])))
+					good = a0 == ".URL.Path" && strings.HasSuffix(info.TypeOf(rootOfSel(call.Args[0])).String(), "net/http.Request") && strings.HasSuffix(exprStr(call.Args[1]), ".validateAC")
+				}
+			}
+			return true
+		})
+		if found {
+			return good, "parseRequestURL is not applied to the request's URL path and the validateAC setting"
+		}
+		return false, "kind argument is " + exprStr(e)
+	}
 	ord := map[string]int{}
 	for _, st := range sites {
 		if st.op == "GetZstd" || st.op == "GetValidatedActionResult" {
@@ -95,21 +208,8 @@ func keyspaceRules(c *Ctx) {
 		}
 		ord[st.fn.Key+st.op]++
 		key := fmt.Sprintf("%s%s:%s#%d:kind", c.Cfg, st.fn.Key, st.op, ord[st.fn.Key+st.op])
-		k := exprStr(st.call.Args[1])
-		ok := k == "cache.CAS" || k == "cache.AC"
-		if k == "kind" && st.fn.Key == "server.(*httpCache).CacheHandler" {
-			info := st.fn.Pkg.TypesInfo
-			o := identObj(info, st.call.Args[1])
-			ast.Inspect(st.fn.Decl.Body, func(n ast.Node) bool {
-				if as, k2 := n.(*ast.AssignStmt); k2 && len(as.Rhs) == 1 && len(as.Lhs) == 4 {
-					if call, k3 := as.Rhs[0].(*ast.CallExpr); k3 && calleeKey(info, call) == "server.parseRequestURL" && identObj(info, as.Lhs[0]) == o {
-						ok = exprStr(call.Args[0]) == "r.URL.Path" && strings.HasSuffix(exprStr(call.Args[1]), ".validateAC")
-					}
-				}
-				return true
-			})
-		}
-		R.Check(ok, "R15c", key, c.P.Pos(st.call.Pos()), "the kind argument is a constant key space or the one derived from the request URL", "kind argument is "+k)
+		ok, why := kindOK(st.fn, st.call.Args[1], 0)
+		R.Check(ok, "R15c", key, c.P.Pos(st.call.Pos()), "the kind argument is a constant key space or the one derived from the request URL", why)
 	}
 	if fi := c.P.MustFunc(R, "R15c", "server.parseRequestURL"); fi != nil {
 		var base *Base
@@ -140,20 +240,16 @@ func keyspaceRules(c *Ctx) {
 			}
 		}
 		R.Check(ok, "R15c", c.Cfg+"parseRequestURL:table", c.P.Pos(fi.Decl.Pos()), "parseRequestURL maps cas/ -> CAS, ac/ -> AC when validating, else RAW", fmt.Sprintf("mapping is %v", keysOf(got)))
+		// the grammar is the pattern of the package-level regexp whose FindStringSubmatch parses the URL
 		pat := ""
-		if spkg := c.P.Pkg("/server"); spkg != nil {
-			for _, f := range spkg.Syntax {
-				ast.Inspect(f, func(n ast.Node) bool {
-					if vs, ok := n.(*ast.ValueSpec); ok && len(vs.Names) == 1 && vs.Names[0].Name == "blobNameSHA256" && len(vs.Values) == 1 {
-						if call, ok := vs.Values[0].(*ast.CallExpr); ok {
-							pat, _ = constString(spkg.TypesInfo, call.Args[0])
-						}
-					}
-					return true
-				})
+		for _, call := range callsIn(fi.Decl.Body, true) {
+			if fullCalleeName(fi.Pkg.TypesInfo, call) == "regexp.(Regexp).FindStringSubmatch" {
+				if sel, ok := call.Fun.(*ast.SelectorExpr); ok {
+					pat = regexpPattern(c, fi.Pkg.TypesInfo, sel.X)
+				}
 			}
 		}
-		R.Check(pat == "^/?(.*/)?(ac/|cas/)([a-f0-9]{64})$", "R15c", c.Cfg+"blobNameSHA256", "", "the URL grammar is ^/?(.*/)?(ac/|cas/)([a-f0-9]{64})$", "the URL grammar is "+pat)
+		R.Check(pat == "^/?(.*/)?(ac/|cas/)([a-f0-9]{64})$", "R15c", c.Cfg+"url-grammar", "", "the URL grammar is ^/?(.*/)?(ac/|cas/)([a-f0-9]{64})$", "the URL grammar is "+pat)
 		// group 3 is the hash, group 1 the instance; the grammar is applied to the raw request path
 		info := fi.Pkg.TypesInfo
 		var mObj types.Object
@@ -214,6 +310,21 @@ func keyspaceRules(c *Ctx) {
 
 	// R15d + R15e on the path engine
 	mpos := 0
+	// locals that hold the instance name parsed from the request URL (third result of parseRequestURL)
+	urlInstanceTerms := map[string]bool{}
+	for _, fi := range c.P.FuncsInPkg("/server") {
+		finfo := fi.Pkg.TypesInfo
+		ast.Inspect(fi.Decl, func(n ast.Node) bool {
+			if as, ok := n.(*ast.AssignStmt); ok && len(as.Rhs) == 1 && len(as.Lhs) == 4 {
+				if call, ok := as.Rhs[0].(*ast.CallExpr); ok && calleeKey(finfo, call) == "server.parseRequestURL" {
+					if o := identObj(finfo, as.Lhs[2]); o != nil {
+						urlInstanceTerms[objID(o)] = true
+					}
+				}
+			}
+			return true
+		})
+	}
 	validHash := func(b *Base, x *Exec, s St, t string) bool {
 		if t == "" {
 			return false
@@ -381,7 +492,13 @@ func keyspaceRules(c *Ctx) {
 							if validHash(base, x, s, at) {
 								prev = "1"
 							}
-							s = s.Set("pendmangle", lt+"|"+exprStr(call.Args[1])+"|"+prev)
+							inst := "other:" + exprStr(call.Args[1])
+							if sel, ok := ast.Unparen(call.Args[1]).(*ast.SelectorExpr); ok && sel.Sel.Name == "InstanceName" {
+								inst = "request-instance"
+							} else if it, ok := base.Term(x, call.Args[1], s); ok && urlInstanceTerms[it] {
+								inst = "request-instance"
+							}
+							s = s.Set("pendmangle", lt+"|"+inst+"|"+prev)
 						}
 					}
 					// copies: hash = req.ActionResult.StdoutDigest.Hash
@@ -478,7 +595,12 @@ func keyspaceRules(c *Ctx) {
 				}
 				// ---- R15d ----
 				isAC := op == "GetValidatedActionResult" || (hi == 2 && exprStr(call.Args[1]) == "cache.AC")
-				kindVar := hi == 2 && exprStr(call.Args[1]) == "kind"
+				kindVar := false
+				if hi == 2 {
+					if tv, ok := x.Fn.Info.Types[call.Args[1]]; !ok || tv.Value == nil {
+						kindVar = true
+					}
+				}
 				mangle := ""
 				for kk, v := range s.m {
 					if strings.HasPrefix(kk, "b:") && strings.HasSuffix(kk, ".mangleACKeys") {
@@ -491,10 +613,8 @@ func keyspaceRules(c *Ctx) {
 				}
 				if kindVar {
 					kc := ""
-					for kk, v := range s.m {
-						if strings.HasPrefix(kk, "c:kind@") {
-							kc = v
-						}
+					if kt, ok := base.Term(x, call.Args[1], s); ok {
+						kc = s.Get("c:" + kt)
 					}
 					if kc == "" {
 						R.Fail("R15d", site+":kind-known", c.P.Pos(call.Pos()), "the key space of this access is not determined on this path (unrecognised construct)", x.Trace()...)
@@ -502,16 +622,19 @@ func keyspaceRules(c *Ctx) {
 					}
 					isAC = kc == "0" || kc == "2"
 				}
-				if fnName == "server.(*grpcServer).maybeInline" || fnName == "server.(*grpcServer).getBlobData" || fnName == "server.(*grpcServer).getBlobResponse" {
+				// accesses made by the de-inlining / blob helpers concern CAS blobs named by validated digests
+				for y := x; y != nil; y = y.Parent {
+					if strings.HasPrefix(y.Fn.Name, "server.(*grpcServer).maybeInline") {
+						return []St{s}
+					}
+				}
+				if fnName == "server.(*grpcServer).getBlobData" || fnName == "server.(*grpcServer).getBlobResponse" {
 					return []St{s}
 				}
 				if isAC {
 					mpos++
-					want := "req.InstanceName"
-					if strings.HasPrefix(key, "server.(*httpCache).") {
-						want = "instance"
-					}
-					ok := mangle == "false" || m == want
+					want := "the request's instance name"
+					ok := mangle == "false" || m == "request-instance"
 					R.Check(ok, "R15d", site+":mangled", c.P.Pos(call.Pos()), "the action-cache key is mangled with the request's instance name whenever mangling is enabled",
 						fmt.Sprintf("action-cache access with mangling=%q and key mangled with %q (want %s): entries of different instances collide or are not found", mangle, m, want), x.Trace()...)
 				} else {
@@ -519,7 +642,8 @@ func keyspaceRules(c *Ctx) {
 				}
 				return []St{s}
 			},
-		}, append([]string{}, helpers...)...)
+		})
+		base.AutoInline = func(h *FuncInfo) bool { return isHelper[h.Key] }
 		base.FollowGo = true
 		x := NewExec(c.P.FlowOf(fi), base)
 		x.Run(newSt())
@@ -605,4 +729,15 @@ func resultObj(fi *FuncInfo, idx int) types.Object {
 		}
 	}
 	return nil
+}
+
+// rootOfSel returns the innermost operand of a selector chain (r in r.URL.Path).
+func rootOfSel(e ast.Expr) ast.Expr {
+	for {
+		s, ok := ast.Unparen(e).(*ast.SelectorExpr)
+		if !ok {
+			return ast.Unparen(e)
+		}
+		e = s.X
+	}
 }
